@@ -26,6 +26,7 @@ type SiteSpec struct {
 	Ordinal int
 	Clause  *Clause
 	Hits    int
+	Lemma    bool   // proved at the site and assumed afterwards
 	SetGhost string // `at call f: set $g := expr` (expr may mention res)
 	SetExpr  Expr
 }
@@ -424,7 +425,16 @@ func ParseSpecFile(path string) (*SpecFile, error) {
 					Clause: &Clause{Label: "set " + strings.TrimSpace(body[:a]), Line: s.no}})
 				break
 			}
+			isLemma := false
 			i := strings.Index(rest, ": assert ")
+			if i < 0 {
+				// `at call f: lemma L: e` is proved at the site like an assert and, unlike an assert, may be used afterwards
+				if j := strings.Index(rest, ": lemma "); j >= 0 {
+					rest = rest[:j] + ": assert " + rest[j+len(": lemma "):]
+					i = j
+					isLemma = true
+				}
+			}
 			if i < 0 {
 				return nil, fail("at <kind> <callee>: assert L: e")
 			}
@@ -442,7 +452,7 @@ func ParseSpecFile(path string) (*SpecFile, error) {
 			if err != nil {
 				return nil, fail("%v", err)
 			}
-			curFunc.Sites = append(curFunc.Sites, &SiteSpec{Kind: kind, Callee: callee, Ordinal: ord, Clause: c})
+			curFunc.Sites = append(curFunc.Sites, &SiteSpec{Kind: kind, Callee: callee, Ordinal: ord, Clause: c, Lemma: isLemma})
 		case "arith":
 			curFunc.ArithChecked = true
 		case "conv":
